@@ -361,7 +361,7 @@ def scenarios_from(jobs, seed, count):
 
 
 def run(ctx, jobs):
-    count = 2500 if ctx.tier == "thorough" else 320
+    count = 4000 if ctx.tier == "thorough" else 320
     scs = scenarios_from(jobs, ctx.seed, count)
     res = pool_map(run_scenario, scs, chunksize=max(1, len(scs) // 64))
     n = 0
